@@ -139,17 +139,97 @@ pub fn check(case: &Case, l: &mut Local) -> Verdict {
     Verdict::Pass { nontrivial }
 }
 
+// ---- bounded-exhaustive (a): every string of up to 3 characters over the syntax characters and their neighbours
+fn syntax_cases() -> Vec<Case> {
+    const A: &[char] = &['\\', '^', '$', '.', '|', '?', '*', '+', '(', ')', '[', ']', '{', '}', '-', '/', 'a', '0', ','];
+    let mut ss: Vec<String> = vec![String::new()];
+    let mut layer: Vec<String> = vec![String::new()];
+    for _ in 0..3 {
+        let mut next = vec![];
+        for b in &layer {
+            for c in A {
+                let mut t = b.clone();
+                t.push(*c);
+                next.push(t);
+            }
+        }
+        ss.extend(next.iter().cloned());
+        layer = next;
+    }
+    ss.iter()
+        .enumerate()
+        .map(|(k, s)| {
+            let head: String = s.chars().take(1).collect();
+            let t = format!("{}a{}{}{}", s, s, head, s);
+            Case { pat: vec![], flags: Fl::all()[k % 24].text(), hay: t, hay16: vec![], start: 0, x: json!({ "s": s }) }
+        })
+        .collect()
+}
+
+// ---- bounded-exhaustive (b): every scalar value as a one-character string
+const CP_BLOCK: u32 = 0x800;
+
+fn cp_cases() -> Vec<Case> {
+    (0..0x110000 / CP_BLOCK).map(|b| Case { x: json!({ "block": b }), ..Default::default() }).collect()
+}
+
+fn gen_cp(src: &mut Src, _t: Tier) -> Case {
+    Case { x: json!({ "block": src.below(0x110000 / CP_BLOCK) }), ..Default::default() }
+}
+
+fn check_cp(case: &Case, l: &mut Local) -> Verdict {
+    let b = case.x.get("block").and_then(|b| b.as_u64()).unwrap_or(0) as u32;
+    let mut n = 0u64;
+    for c in (b * CP_BLOCK..(b + 1) * CP_BLOCK).filter_map(char::from_u32) {
+        let s = c.to_string();
+        let esc = regress::escape(&s);
+        match unescape(&esc) {
+            Some(u) if u == s => {}
+            other => return Verdict::Fail(format!("escape({:?}) = {:?}: removing the backslashes before syntax characters gives {:?}", s, esc, other)),
+        }
+        let cps: Vec<u32> = esc.chars().map(|c| c as u32).collect();
+        let t = format!("x{}x{}", s, s);
+        for f in ["", "u", "v", "i", "iu"] {
+            let fl = Fl::parse(f);
+            let re = match compile(&cps, fl, false) {
+                Ok(r) => r,
+                Err(e) => return Verdict::Fail(format!("escape({:?}) = {:?} does not compile with flags {:?}: {}", s, esc, f, e)),
+            };
+            let got = match find_all(&re, Engine::Bt, Enc::Utf8, &t, 0, 8, DEFAULT_FUEL) {
+                Out::Ms(v) => v.iter().map(|m| (m.s, m.e)).collect::<Vec<_>>(),
+                o => return Verdict::Fail(format!("search failed: {}", o.show())),
+            };
+            let want: Vec<(usize, usize)> = if fl.i { crate::uni::icase_occurrences(&s, &t, fl.unicode()) } else { t.match_indices(&s).map(|(i, m)| (i, i + m.len())).collect() };
+            if got != want {
+                return Verdict::Fail(format!("escape({:?}) with flags {:?} on {:?}: matches {:?}, expected {:?}", s, f, t, got, want));
+            }
+            n += 1;
+        }
+    }
+    l.add("single_character_strings_x_flags", n);
+    Verdict::Pass { nontrivial: true }
+}
+
+fn gen_syn(src: &mut Src, _t: Tier) -> Case {
+    let v = syntax_cases();
+    v[(src.raw() as usize).min(v.len() - 1)].clone()
+}
+
+pub static V_SYN: Variant = Variant { name: "exhaustive_syntax_strings", choice_len: 1, gen: gen_syn, check };
+pub static V_CP: Variant = Variant { name: "every_scalar_value", choice_len: 1, gen: gen_cp, check: check_cp };
 pub static V: Variant = Variant { name: "escape_literal", choice_len: 200, gen, check };
 
 pub fn variants() -> Vec<&'static Variant> {
-    vec![&V]
+    vec![&V, &V_SYN, &V_CP]
 }
 
 pub fn run(ctx: &Ctx) -> i32 {
+    ctx.run_list(&V_SYN, &syntax_cases());
+    ctx.run_list(&V_CP, &cp_cases());
     ctx.run_variant(&V, ctx.scale(300_000, 5_000_000));
     ctx.finish(
         "exploration",
-        "strings s over syntax characters, '-', '/', digits, letters that follow backslashes in escapes (d w p u x c n k), whitespace, NUL, 1-4-byte and case-special characters (length 0-8) x texts t with planted full / partial / overlapping copies x one of the 24 flag sets for matching (compilation is checked under all 24). Oracle: round trip (removing the backslash before each syntax character restores s and nothing else changed), str::match_indices without i (every boundary for the empty string), canonical-equivalence scan with i. Non-trivial = s contains a syntax or non-ASCII character and t contains an occurrence.",
+        "(bounded-exhaustive) EVERY string of up to 3 characters over the 16 characters escape() treats specially plus a, 0 and comma (7k strings, planted full / partial / adjacent); EVERY scalar value as a one-character string under -, u, v, i, iu (5.5M compile-and-search runs); strings s over syntax characters, '-', '/', digits, letters that follow backslashes in escapes (d w p u x c n k), whitespace, NUL, 1-4-byte and case-special characters (length 0-8) x texts t with planted full / partial / overlapping copies x one of the 24 flag sets for matching (compilation is checked under all 24). Oracle: round trip (removing the backslash before each syntax character restores s and nothing else changed), str::match_indices without i (every boundary for the empty string), canonical-equivalence scan with i. Non-trivial = s contains a syntax or non-ASCII character and t contains an occurrence.",
         &["case-insensitive occurrences use the harness's independent canonicalisation (std full upper-casing + ES legacy rule; regex-syntax simple folding) - see uni.rs"],
     )
 }
